@@ -1,0 +1,17 @@
+//go:build verif
+
+package container
+
+// Contracts for gocv (see /verif/DESIGN.md). Comment-only; compiled only with
+// the build tag "verif".
+
+//@ func container.convertReply props C09
+//@   arith bv
+//@   assigns nothing
+//@   ensures ret.Err != nil ==> result.Error != nil && result.ExecReply == nil && len(result.Error.Msg) > 0
+//@   ensures ret.Err == nil && ws_exited(uint32(ret.WaitStatus)) ==> result.Error == nil && result.ExecReply != nil
+//@   ensures ret.Err == nil && ws_exited(uint32(ret.WaitStatus)) ==> int(result.ExecReply.Status) == status_of_exit(ws_exitcode(uint32(ret.WaitStatus))) && result.ExecReply.ExitStatus == ws_exitcode(uint32(ret.WaitStatus))
+//@   ensures ret.Err == nil && ws_signaled(uint32(ret.WaitStatus)) ==> result.Error == nil && result.ExecReply != nil
+//@   ensures ret.Err == nil && ws_signaled(uint32(ret.WaitStatus)) ==> int(result.ExecReply.Status) == status_of_signal(ws_termsig(uint32(ret.WaitStatus))) && result.ExecReply.ExitStatus == ws_termsig(uint32(ret.WaitStatus))
+//@   ensures ret.Err == nil && !ws_exited(uint32(ret.WaitStatus)) && !ws_signaled(uint32(ret.WaitStatus)) ==> result.Error != nil && result.ExecReply == nil && len(result.Error.Msg) > 0
+//@   ensures result.ExecReply != nil ==> int64(result.ExecReply.Time) == ret.Rusage.Utime.Sec * 1000000000 + ret.Rusage.Utime.Usec * 1000 && uint64(result.ExecReply.Memory) == uint64(ret.Rusage.Maxrss << 10)
